@@ -68,6 +68,15 @@ finding(
 
 finding("P45", ["C10"], "fixed", "gen with --prepend leaks the prepended imports into cdd.compound.gen's globals: `import json as path` makes every later gen call in the process raise AttributeError", "a892f8f")
 
+finding(
+    "P52", ["C13"], "fixed", "sync_properties with a method parameter `b` as target rewrites the 'b' inside a class attribute's Literal['a', 'b'] annotation instead", "31295d5",
+    {"C13": [{"isrc": "def f(p: List[str] = None):\n    return 1\n", "osrc": "class D(object):\n    gd: Literal['a', 'b'] = 0.5\n\n    def m(cls, b=-2, w=None):\n        return -2\n", "ip": ["f.p", "arg", ["p", "List[str]", "None"], {}], "op": ["D.m.b", "arg", ["b", None, "-2"], {"idx": 0, "names": ["b", "w"], "hasdef": True, "first": "cls"}], "wrap": None, "eval": False}]},
+)
+finding(
+    "P53", ["C13"], "fixed", "sync_properties input path `Q.v` resolves to the parameter `v` of an earlier unrelated function: the wrong annotation is copied", "225871b",
+    {"C13": [{"isrc": "def b(m=None, v: str=None):\n    return None\n\nclass Q(object):\n    v: int = 0.5\n", "osrc": "class J(object):\n    def az0(cls, y, ffyniy: str = 0.5):\n        return 1\n", "ip": ["Q.v", "attr", ["v", "int", "0.5"], {}], "op": ["J.az0.ffyniy", "arg", ["ffyniy", "str", "0.5"], {"idx": 1, "names": ["y", "ffyniy"], "hasdef": True, "first": "cls"}], "wrap": None, "eval": False}]},
+)
+
 # ------------------------------------------------------------------ open
 finding("P9", ["C12"], "open", "sync leaves function and argparse targets that differ from the truth untouched ('unchanged'); Class.method targets get a new top-level def appended on every run; a missing function file raises TypeError (repair would break 4 pinned test_conformance tests)")
 finding("P12", ["C01", "C08"], "open", "string default '' is emitted as 'Defaults to' and lost; string defaults containing '.' are truncated")
